@@ -314,7 +314,13 @@ fn c02_triples(a: &Args, rng: &mut Rng, cs: &mut Cases, or: &mut Oracle, st: &mu
             let s0b = snap(&m);
             ev_in.push("u".into());
             ev_out.push(format!("{}:{}:{}", it.id(&s0b), b(m.can_undo()), b(m.can_redo())));
-            if s0b != s0 { break; } // an unfaithful undo is C01's finding; what follows would echo it
+            if s0b != s0 {
+                // an unfaithful undo is C01's finding, not this property's: leave it out of the
+                // event list handed to the machine, and stop (what follows would echo it)
+                ev_in.pop();
+                ev_out.pop();
+                break;
+            }
             or.checked += 1;
             match guarded(|| m.redo()) {
                 Err(()) => { let c = format!("panic:redo:{k}"); or.fail(&c, json!({"history": ops_json(&ops_done)}), "redo panicked".into()); failed_classes.push(c); break; }
